@@ -17,14 +17,19 @@ Definition first_rune (c : list Z) : Z := hd 0 c.
 Section Manip.
 Context `{Classifier}.
 
-(* the loop of CollapseSpace: the text is re-segmented after every replacement *)
+(* the loop of CollapseSpace: the text is re-segmented after every replacement.
+   (Len, CharAt and SetCharAt of one iteration all see the same text, so its
+   cluster list is computed once per iteration.) *)
 Fixpoint collapse_loop (fuel : nat) (i : Z) (text : gstr) : Res gstr :=
   match fuel with
   | O => OutOfFuel
   | S fuel' =>
-      if i <? glen text then
-        do ch <- gchar_at text i;
-        do text' <- (if is_space (first_rune ch) then gset_char_at text i [SP] else Ok text);
+      let cl := clusters text in
+      if i <? zlen cl then
+        do ch <- znth cl i;
+        let text' := if is_space (first_rune ch)
+                     then concat (firstn (Z.to_nat i) cl) ++ [SP] ++ concat (skipn (S (Z.to_nat i)) cl)
+                     else text in
         collapse_loop fuel' (i + 1) text'
       else Ok text
   end.
@@ -39,21 +44,23 @@ Fixpoint append_word (fuel : nat) (lines : list gstr) (curWord curLine : gstr) (
   match fuel with
   | O => OutOfFuel
   | S fuel' =>
-      if 0 <? glen curWord then
-        let added := glen curWord + (if glen curLine =? 0 then 0 else 1) in
-        if glen curLine + added =? width then
-          let curLine := if glen curLine =? 0 then curLine else gadd curLine [SP] in
+      let lw := glen curWord in
+      if 0 <? lw then
+        let ll := glen curLine in
+        let added := lw + (if ll =? 0 then 0 else 1) in
+        if ll + added =? width then
+          let curLine := if ll =? 0 then curLine else gadd curLine [SP] in
           let curLine := gadd curLine curWord in
           append_word fuel' (lines ++ [curLine]) [] [] width
-        else if width <? glen curLine + added then
-          if glen curLine =? 0 then
+        else if width <? ll + added then
+          if ll =? 0 then
             let curLine := gadd curLine (gsub curWord 0 (width - 1)) in
             let curLine := gadd curLine [HYPHEN] in
-            let curWord := gsub curWord (width - 1) (glen curWord) in
+            let curWord := gsub curWord (width - 1) lw in
             append_word fuel' (lines ++ [curLine]) curWord [] width
           else append_word fuel' (lines ++ [curLine]) curWord [] width
         else
-          let curLine := if glen curLine =? 0 then curLine else gadd curLine [SP] in
+          let curLine := if ll =? 0 then curLine else gadd curLine [SP] in
           append_word fuel' lines [] (gadd curLine curWord) width
       else Ok (lines, curLine)
   end.
